@@ -288,7 +288,7 @@ def hOne (st : HandlerSt) (toks : List String) (hint : Option String := none) : 
         let (s0, o0, sizes) := advSplit cfg target 10000 nd.st [] [] []
         let (nd0, r0) := renderStep nd s0 o0
         if sizes.isEmpty || hint == some r0 || hint == none then put nd0 r0 else
-        let cands := (choiceVectors sizes 400).drop 1
+        let cands := (choiceVectors sizes 3000).drop 1
         let found := cands.findSome? fun ch =>
           let (s1, o1, _) := advSplit cfg target 10000 nd.st ch [] []
           let (nd1, r1) := renderStep nd s1 o1
